@@ -33,10 +33,12 @@ inductive Action where
   | seekEnd                -- `fileobj.seek(0, 2)`   (first step of `np.memmap(fileobj, ...)`)
   | tell                   -- `fileobj.tell()`       (second step of `np.memmap`)
   | read (n : Nat)         -- `fileobj.read(n)` / `fileobj.readinto(bytearray(n))`
-  | probe (k : Nat)        -- `hasattr(self, '_opener')`: when the slot is filled the next `k` actions are skipped
-  | opn                    -- `ImageOpener(path)`: a fresh handle
-  | setSlot                -- `self._opener = <the handle just opened>`
-  | getSlot                -- `fileobj = self._opener`
+  | probe (q k : Nat)      -- `hasattr(proxy q, '_opener')`: when slot `q` is filled the next `k` actions are skipped
+  | opn                    -- `ImageOpener(path)`: a fresh handle, to which the thread's `fileobj` refers from now
+                           --   on (per-read opener: `with ImageOpener(..) as opener: yield opener`; in the
+                           --   persistent path the following `getSlot` rebinds `fileobj` before any file operation)
+  | setSlot (q : Nat)      -- `proxy q._opener = <the handle just opened>`
+  | getSlot (q : Nat)      -- `fileobj = proxy q._opener`
   deriving Repr, DecidableEq, Inhabited
 
 /-- observable event of one step -/
@@ -56,7 +58,7 @@ structure Thread where
 structure State where
   pos     : Nat → Nat            -- file position of every handle
   nh      : Nat                  -- number of handles allocated so far
-  slot    : Option Nat           -- `self._opener` (none = attribute absent)
+  slot    : Nat → Option Nat     -- per proxy `q`: `proxy q._opener` (none = attribute absent)
   owner   : Nat → Option Tid     -- per lock: owning thread
   count   : Nat → Nat            -- per lock: RLock recursion level
   threads : Tid → Thread
@@ -102,14 +104,16 @@ def step (file : List Byte) (s : State) (t : Tid) : State × Ev :=
         let d := slice file (s.pos th.cur) n
         ({ s with pos := upd s.pos th.cur (s.pos th.cur + d.length), threads := upd s.threads t adv },
          .read th.cur n d)
-    | .probe k =>
-        match s.slot with
+    | .probe q k =>
+        match s.slot q with
         | none => ({ s with threads := upd s.threads t adv }, .get none)
         | some h => ({ s with threads := upd s.threads t { th with prog := rest.drop k } }, .get (some h))
-    | .opn => ({ s with nh := s.nh + 1, threads := upd s.threads t { adv with mine := s.nh } }, .opn s.nh)
-    | .setSlot => ({ s with slot := some th.mine, threads := upd s.threads t adv }, .setSlot th.mine)
-    | .getSlot =>
-        match s.slot with
+    | .opn => ({ s with nh := s.nh + 1, threads := upd s.threads t { adv with mine := s.nh, cur := s.nh } },
+               .opn s.nh)
+    | .setSlot q => ({ s with slot := upd s.slot q (some th.mine), threads := upd s.threads t adv },
+                     .setSlot th.mine)
+    | .getSlot q =>
+        match s.slot q with
         | none => (s, .get none)   -- AttributeError in Python: the thread makes no further progress
         | some h => ({ s with threads := upd s.threads t { adv with cur := h } }, .get (some h))
 
@@ -155,7 +159,7 @@ def solo (file : List Byte) : Nat → List Action → List DEv
 
 def Action.slotOnly : Action → Bool
   | .opn => true
-  | .setSlot => true
+  | .setSlot _ => true
   | _ => false
 
 /-- `wf L d e prog`: every file operation of `prog` happens while lock `L` is held (`d` = current recursion
@@ -169,32 +173,38 @@ def wf (L : Nat) : Nat → Bool → List Action → Bool
   | d, _, .seekEnd :: p => d != 0 && wf L d true p
   | d, e, .tell :: p => d != 0 && e && wf L d e p
   | d, e, .read _ :: p => d != 0 && e && wf L d e p
-  | d, e, .probe k :: p => (p.take k).all Action.slotOnly && wf L d e p
-  | d, e, .opn :: p => wf L d e p
-  | d, e, .setSlot :: p => wf L d e p
-  | d, _, .getSlot :: p => wf L d false p
+  | d, e, .probe _ k :: p => (p.take k).all Action.slotOnly && wf L d e p
+  | d, _, .opn :: p => wf L d false p
+  | d, e, .setSlot _ :: p => wf L d e p
+  | d, _, .getSlot _ :: p => wf L d false p
 
-/-- `good L d ss prog` (shape needed for PROGRESS, on top of `wf`): the program takes and releases only lock
-    `L`, properly nested (`d` = current recursion level, back to 0 at the end), and reads the opener slot
-    (`getSlot`) only when the slot is certainly filled (`ss`: it was filled when last tested, or this thread
-    filled it; the slot is never emptied). -/
-def good (L : Nat) : Nat → Bool → List Action → Bool
+/-- `good L Q d ss prog` (shape needed for PROGRESS, on top of `wf`): the program takes and releases only lock
+    `L`, properly nested (`d` = current recursion level, back to 0 at the end), uses only the opener slot `Q`
+    and reads it (`getSlot`) only when it is certainly filled (`ss`: it was filled when last tested, or this
+    thread filled it; a slot is never emptied). -/
+def good (L Q : Nat) : Nat → Bool → List Action → Bool
   | d, _, [] => d == 0
-  | d, ss, .acquire l :: p => l == L && good L (d + 1) ss p
-  | d, ss, .release l :: p => l == L && d != 0 && good L (d - 1) ss p
-  | d, ss, .seek _ :: p => good L d ss p
-  | d, ss, .seekEnd :: p => good L d ss p
-  | d, ss, .tell :: p => good L d ss p
-  | d, ss, .read _ :: p => good L d ss p
-  | d, ss, .probe k :: p => (p.take k).all Action.slotOnly && good L d ss p
-  | d, ss, .opn :: p => good L d ss p
-  | d, _, .setSlot :: p => good L d true p
-  | d, ss, .getSlot :: p => ss && good L d ss p
+  | d, ss, .acquire l :: p => l == L && good L Q (d + 1) ss p
+  | d, ss, .release l :: p => l == L && d != 0 && good L Q (d - 1) ss p
+  | d, ss, .seek _ :: p => good L Q d ss p
+  | d, ss, .seekEnd :: p => good L Q d ss p
+  | d, ss, .tell :: p => good L Q d ss p
+  | d, ss, .read _ :: p => good L Q d ss p
+  | d, ss, .probe q k :: p => q == Q && (p.take k).all Action.slotOnly && good L Q d ss p
+  | d, ss, .opn :: p => good L Q d ss p
+  | d, _, .setSlot q :: p => q == Q && good L Q d true p
+  | d, ss, .getSlot q :: p => q == Q && ss && good L Q d ss p
 
-/-- initial state: `nh` handles exist (all at position `p0 h`), nobody holds a lock -/
-def State.init (progs : Tid → List Action) (nh : Nat) (p0 : Nat → Nat := fun _ => 0) : State :=
-  { pos := p0, nh := nh, slot := none, owner := fun _ => none, count := fun _ => 0,
+/-- initial state: `nh` handles exist (all at position `p0 h`), nobody holds a lock, the opener slots hold
+    `slot0` (proxies whose persistent opener was created before the threads start) -/
+def State.initS (progs : Tid → List Action) (nh : Nat) (slot0 : Nat → Option Nat)
+    (p0 : Nat → Nat := fun _ => 0) : State :=
+  { pos := p0, nh := nh, slot := slot0, owner := fun _ => none, count := fun _ => 0,
     threads := fun t => { prog := progs t } }
+
+/-- initial state with every opener slot empty -/
+def State.init (progs : Tid → List Action) (nh : Nat) (p0 : Nat → Nat := fun _ => 0) : State :=
+  State.initS progs nh (fun _ => none) p0
 
 /-! ### the programs nibabel's read paths produce -/
 
@@ -208,9 +218,13 @@ def lockedWhole (l : Nat) (memmapTry reads : Bool) (off n : Nat) : List Action :
   [.acquire l] ++ (if memmapTry then [.seekEnd, .tell] else []) ++
     (if reads then [.seek off, .read n] else []) ++ [.release l]
 
-/-- `_get_fileobj` with a persistent opener: `if not hasattr(self,'_opener'): self._opener = ImageOpener(..)`
-    then `yield self._opener` -/
-def getFileobjPersist : List Action := [.probe 2, .opn, .setSlot, .getSlot]
+/-- `_get_fileobj` of proxy `q` with a persistent opener: `if not hasattr(self,'_opener'): self._opener =
+    ImageOpener(..)` then `yield self._opener` -/
+def getFileobjPersist (q : Nat) : List Action := [.probe q 2, .opn, .setSlot q, .getSlot q]
+
+/-- `_get_fileobj` without a persistent opener on a file NAME: `with ImageOpener(self.file_like) as opener:
+    yield opener` — a fresh private handle for this one read (closed afterwards; closing is not modelled) -/
+def getFileobjPerRead : List Action := [.opn]
 
 /-- `ArrayProxy.copy()`: the lock the copy uses (`fresh` = the lock its `__init__` created) -/
 def copyLock (hasFh : Bool) (srcLock fresh : Nat) : Nat := if hasFh then srcLock else fresh
@@ -261,6 +275,119 @@ def validOps : Nat → List POp → Bool
   | _, [] => true
   | n, op :: r => decide (op.src < n) && validOps (n + 1) r
 
+/-! ### handle/lock topology of a family of proxies (which proxies share an OS-level handle, which a lock)
+
+  Python modelled: arrayproxy.py `__init__` (`_should_keep_file_open`: a file-like → no opener of its own; a file
+  name → `persist_opener = keep_file_open or (indexed_gzip and name ends with .gz)`), `copy()` (same `file_like`,
+  `keep_file_open=self._keep_file_open`, lock shared iff `_has_fh()`), `reshape()` (same `file_like`,
+  `keep_file_open` NOT passed on → `KEEP_FILE_OPEN_DEFAULT`), `__getstate__/__setstate__` (the whole `__dict__` —
+  including an already created `_opener` — is taken over, `_lock` replaced by a new `RLock()`), `_get_fileobj`
+  (persistent opener created on first use and kept in `_opener`; otherwise one `ImageOpener` per read). -/
+
+/-- where the file handle of a proxy's reads comes from -/
+inductive HKind where
+  | handle    -- `file_like` is an open file object / `Opener` (`_has_fh()`): every proxy over it uses that object
+  | persist   -- file name, persistent opener (`_persist_opener`): one handle per proxy, created on first use
+  | perRead   -- file name, no persistent opener: every read opens (and closes) a handle of its own
+  deriving Repr, DecidableEq, Inhabited
+
+/-- one step of the history of a family -/
+inductive HOp where
+  | derive (op : POp)   -- `copy()` / `reshape()` / `copy.copy()` of an existing proxy
+  | ctor                -- an independent construction on the same `file_like` as the original (the same file
+                        --   name loaded a second time; the same file object handed to a second proxy)
+  | use (p : Nat)       -- a completed single-threaded read through proxy `p` (creates its persistent opener)
+  deriving Repr, DecidableEq, Inhabited
+
+/-- the family after a history: `n` proxies (0 = the original); per proxy its lock, its copy()-family (index of
+    the oldest proxy it is connected to through `copy()` edges), where its handle comes from, the persistent
+    opener object it holds (numbered in creation order); `nopen` = handles/openers created so far -/
+structure Fam where
+  n      : Nat
+  lock   : Nat → Nat
+  fam    : Nat → Nat
+  kind   : Nat → HKind
+  opener : Nat → Option Nat
+  nopen  : Nat
+
+/-- the original proxy alone (a caller-supplied handle object is handle number 0) -/
+def Fam.root (k : HKind) : Fam :=
+  { n := 1, lock := fun _ => 0, fam := fun _ => 0, kind := fun _ => k, opener := fun _ => none,
+    nopen := if k = .handle then 1 else 0 }
+
+/-- kind of the proxy `reshape()` returns: `keep_file_open` is not passed on, so a name proxy persists its opener
+    only when the file type does (`igz`: `.gz` name with indexed_gzip present) — with
+    `KEEP_FILE_OPEN_DEFAULT = False` -/
+def reshapeKind (igz : Bool) : HKind → HKind
+  | .handle => .handle
+  | _ => if igz then .persist else .perRead
+
+def Fam.step (igz : Bool) (f : Fam) : HOp → Fam
+  | .derive (.copy s) =>
+      { f with n := f.n + 1,
+               lock := upd f.lock f.n (copyLock (f.kind s == .handle) (f.lock s) f.n),
+               fam := upd f.fam f.n (f.fam s),
+               kind := upd f.kind f.n (f.kind s),
+               opener := upd f.opener f.n none }
+  | .derive (.reshape s) =>
+      { f with n := f.n + 1,
+               lock := upd f.lock f.n (reshapeLock (f.lock s) f.n),
+               fam := upd f.fam f.n f.n,
+               kind := upd f.kind f.n (reshapeKind igz (f.kind s)),
+               opener := upd f.opener f.n none }
+  | .derive (.setstate s) =>
+      { f with n := f.n + 1,
+               lock := upd f.lock f.n (setstateLock (f.lock s) f.n),
+               fam := upd f.fam f.n f.n,
+               kind := upd f.kind f.n (f.kind s),
+               opener := upd f.opener f.n (f.opener s) }
+  | .ctor =>
+      { f with n := f.n + 1,
+               lock := upd f.lock f.n f.n,
+               fam := upd f.fam f.n f.n,
+               kind := upd f.kind f.n (f.kind 0),
+               opener := upd f.opener f.n none }
+  | .use p =>
+      match f.kind p, f.opener p with
+      | .persist, none => { f with opener := upd f.opener p (some f.nopen), nopen := f.nopen + 1 }
+      | .perRead, _ => { f with nopen := f.nopen + 1 }
+      | _, _ => f
+
+def HOp.valid (n : Nat) : HOp → Bool
+  | .derive op => decide (op.src < n)
+  | .ctor => true
+  | .use p => decide (p < n)
+
+/-- every step refers to a proxy that already exists -/
+def validHist (igz : Bool) : Fam → List HOp → Bool
+  | _, [] => true
+  | f, op :: r => op.valid f.n && validHist igz (f.step igz op) r
+
+def Fam.run (igz : Bool) (f : Fam) (ops : List HOp) : Fam := ops.foldl (Fam.step igz) f
+
+/-- identity of the OS-level handle the reads of proxy `i` go through, as far as SHARING is concerned -/
+inductive HId where
+  | base               -- the caller-supplied handle object
+  | opener (h : Nat)   -- an already created persistent opener
+  | priv (i : Nat)     -- a handle no other proxy can have: the not yet created persistent opener of proxy `i`,
+                       --   or the per-read handles of proxy `i`
+  deriving Repr, DecidableEq, Inhabited
+
+def Fam.handleOf (f : Fam) (i : Nat) : HId :=
+  match f.kind i with
+  | .handle => .base
+  | .persist => (match f.opener i with | some h => .opener h | none => .priv i)
+  | .perRead => .priv i
+
+/-- steps that keep every pair "same handle ⇒ same lock": `copy()`, reads, and — over a file NAME — further
+    constructions.  (`reshape()`, `copy.copy()`/unpickling and a second construction over the same file OBJECT
+    put a new lock over a handle that is already in use: outside the property.) -/
+def HOp.copyLike (k : HKind) : HOp → Bool
+  | .derive (.copy _) => true
+  | .derive _ => false
+  | .ctor => k != .handle
+  | .use _ => true
+
 /-- same programs with the lock operations removed (`_NullLock`) -/
 def unlocked (p : List Action) : List Action :=
   p.filter (fun a => match a with | .acquire _ => false | .release _ => false | _ => true)
@@ -272,7 +399,8 @@ def splitSegs (l : Nat) (segs : List (Nat × Nat)) : List Action :=
 /-! ### from a proxy read request to a program and a result (uses the C06 segment model) -/
 
 structure Cfg where
-  persist : Bool          -- path + keep_file_open=True  (else: proxy over an open handle)
+  persist : Bool          -- path + persistent opener (keep_file_open=True, or indexed gzip)
+                          --   (else, unless `perRead`: proxy over an open handle)
   mmap    : Bool
   order   : Nb.C06.Order
   isz     : Nat
@@ -284,6 +412,14 @@ structure Cfg where
   mappable : Bool := persist
   /-- the handle is a compressed-file object (`_is_compressed_fobj`): `np.memmap` is not even attempted -/
   compressed : Bool := false
+  /-- path without a persistent opener: every read opens (and closes) its own handle -/
+  perRead : Bool := false
+  /-- number of the proxy the request goes through = index of its `_opener` slot -/
+  slotIx : Nat := 0
+
+/-- the actions of `with self._get_fileobj() as fileobj` (arrayproxy.py `_get_fileobj`) -/
+def openActs (c : Cfg) : List Action :=
+  if c.persist then getFileobjPersist c.slotIx else if c.perRead then getFileobjPerRead else []
 
 /-- one read request of a thread: through which lock, `idx = none` is `np.asarray(proxy)`,
     `outer` = the caller itself wraps the read in `with proxy._lock:` (RLock re-entrancy) -/
@@ -345,7 +481,7 @@ def wrapOuter (r : Req) (p : List Action) : List Action :=
 def plan (c : Cfg) (r : Req) : Plan :=
   let file := mkFile c
   let n := c.shape.foldl (· * ·) 1
-  let pre := if c.persist then getFileobjPersist else []
+  let pre := openActs c
   let wholePlan : Plan :=
     -- a real file can be memory mapped: no read, the data come from the mapping (np.memmap/OS contract)
     let tryMap := c.mmap && !c.compressed
